@@ -257,6 +257,11 @@ inline void c02_entry_points(Env& e, mon::Rng& rng)
       else if (!inside && !abs[k]) violation("entry-point-accepted-address-outside-sandbox", mon::fmt("%s accepted %p (%s), sandbox memory is %p..%p", names[k], (void*)a, where, (void*)base, (void*)(base + size - 1)));
       else (inside ? n_acc : n_rej)++;
     }
+    // a rejected call must not have stored the application address either (observable once aborts are exceptions)
+    auto outside_nonnull = [&](uintptr_t v) { return v != 0 && !(v >= base && v - base < size); };
+    if (!inside && ab1 && outside_nonnull(reinterpret_cast<uintptr_t>(t.UNSAFE_unverified()))) { cur_desc = names[0]; violation("rejected-call-left-address-outside-sandbox-in-the-wrapper", mon::fmt("%s: tainted holds %p after the call aborted", where, (void*)t.UNSAFE_unverified())); }
+    if (!inside && ab4 && outside_nonnull(reinterpret_cast<uintptr_t>(tf.UNSAFE_unverified()))) { cur_desc = names[3]; violation("rejected-call-left-address-outside-sandbox-in-the-wrapper", mon::fmt("%s: tainted function pointer holds %p after the call aborted", where, (void*)tf.UNSAFE_unverified())); }
+    if (!inside && ab2 && outside_nonnull(reinterpret_cast<uintptr_t>(t2.UNSAFE_unverified()))) { cur_desc = names[1]; violation("rejected-call-left-address-outside-sandbox-in-the-wrapper", where); }
     if (inside && !ab1 && reinterpret_cast<uintptr_t>(t.UNSAFE_unverified()) != a) { cur_desc = names[0]; violation("entry-point-stored-other-address", where); }
     if (inside && !ab2 && reinterpret_cast<uintptr_t>(t2.UNSAFE_unverified()) != a) { cur_desc = names[1]; violation("entry-point-stored-other-address", where); }
     if (inside && !ab3 && cell != static_cast<uint32_t>(a - base)) { cur_desc = names[2]; violation("entry-point-stored-other-representation", mon::fmt("%s: cell holds %u for base+%llu", where, cell, (unsigned long long)(a - base))); }
